@@ -10,6 +10,11 @@
 //! the mutant is byte-identical to F outside what the SIGNED hard binding declares excluded, resolved by the harness's
 //! own resolvers: DataHash ranges / the C2PA box / BMFF exclusion xpaths). A panic is neither Err nor Invalid.
 //!
+//! Structural variants (added after an independently seeded change was missed: jpeg_io `in_entropy` RST0..=RST7 -> RST0..RST7,
+//! which ends the SOS box at the first RST7): quick includes jpeg-rst-many (ten restart intervals, box + data hash),
+//! jpeg-segs, png-multi-idat, gif-multi (box hash). With them `/tmp/seed-C01/OUT/patch.diff` gives the new keys
+//! `undetected boxhash jpeg at=SOS edit=flip|delete` (40 cases); the unchanged tree has only known findings.
+//!
 //! Mutants caught (quick tier; the unchanged tree already reports the box-hash findings, so "caught" = NEW violation keys):
 //!   /verif/mutants/C01-exclusion-off-by-one.diff  (hash_utils: exclusion end without the -1, at signing and validation):
 //!       321 -> 353 violations; new keys `undetected datahash {flac,mp3} at=content edit=flip`,
